@@ -22,10 +22,42 @@ def _always_exits(stmts):
     return False
 
 
+def _never_none(v):
+    """a value that cannot be None: arithmetic, numbers, numpy results"""
+    if v[0] in ("bin", "neg", "cmp", "tuple", "list", "dict", "cols", "col", "comp"):
+        return True
+    if v[0] == "const":
+        return v[1] is not None
+    return v[0] == "call" and v[1][0] == "global" and v[1][1].startswith(("numpy.", "scipy.", "max", "min", "len", "abs", "float", "int", "sum"))
+
+
+def _choice_not_none(x):
+    """x is a value chosen between a never-None expression (under c) and None (otherwise): 'x is not None' says exactly c."""
+    if x[0] == "ifexp":
+        if x[3] == ("const", None) and _never_none(x[2]):
+            return literals(x[1], True)
+        if x[2] == ("const", None) and _never_none(x[3]):
+            return literals(x[1], False)
+    if x[0] == "gphi" and len(x[1]) == 2:
+        (k1, v1), (k2, v2) = sorted(x[1], key=repr)
+        for (ka, va), (kb, vb) in (((k1, v1), (k2, v2)), ((k2, v2), (k1, v1))):
+            if vb == ("const", None) and _never_none(va) and not any(l[0] == "otherwise" for l in ka):
+                return list(ka)
+    return None
+
+
 def literals(t, positive=True):
     """Flatten a test term into a list of literals that all hold."""
     if t[0] == "call" and t[1] == ("global", "bool") and len(t[2]) == 1 and not t[3]:
         return literals(t[2][0], positive)   # bool(x) as a condition is x
+    if positive and t[0] == "not" and t[1][0] == "isnone":
+        imp = _choice_not_none(t[1][1])
+        if imp is not None:
+            return imp
+    if not positive and t[0] == "isnone":
+        imp = _choice_not_none(t[1])
+        if imp is not None:
+            return imp
     if positive:
         if t[0] == "and":
             out = []
